@@ -100,7 +100,8 @@ def validate(tree):
                 if not isinstance(node.get("v"), str):
                     raise Invalid("str")
                 br = node.get("br")
-                if br is not None and (not node.get("m") or not isinstance(br, str) or "]%s]" % br in node["v"]):
+                if br is not None and (not node.get("m") or not isinstance(br, str) or ("]%s]" % br) in (node["v"] + "]" + br)
+                                       or br == "f" or br.startswith("f-") or "\r" in node["v"]):
                     raise Invalid("brackets")
             elif t == "bytes":
                 try:
